@@ -109,7 +109,7 @@ def run_once(wd, text, shell, variant, tag):
 def make_jobs(tier, seed):
     q = tier == 'quick'
     jobs = [('ex', seed, 6 if q else 24)]
-    jobs += [('j', seed * 1000003 + i, 3, 6 if q else 24) for i in range(20 if q else 90)]
+    jobs += [('j', seed * 1000003 + i, 3, 6 if q else 16) for i in range(20 if q else 90)]
     return jobs
 
 
